@@ -156,6 +156,16 @@ CHECKS = {
          'and read_term/3 on a file stream with every subset/order of variables/1, variable_names/1, singletons/1; the lists must '
          'contain exactly the placed variables (first-occurrence order; singletons as a set), bound to the right positions of the term.',
     note='The generator writes bracketed operator terms so the text order of variables is their left-to-right order in the term.'),
+ 'C17': dict(
+    level='exploration',
+    technique='runtime monitoring: process-level observation (panic/crash/no progress of the read loop) + resynchronisation model with sentinel clauses',
+    text='Files  ok(1). ok(2). <damaged clause> ok(3). ok(4).  with one mutation of a valid clause (delete/insert/replace with '
+         'quotes, brackets, 0\', comment openers, NUL, control and multi-byte characters, truncation, unterminated quoted items, '
+         'invalid escapes, token soup, 10^4-character tokens, 300-deep brackets) are read clause by clause with read_term/3 until '
+         'end_of_file; a panic, a crash, a read loop that does not end within 80 reads, damaged prefix clauses, a non-syntax error, '
+         'or failing to read the last sentinel clause again are refuting events.',
+    note='Mutations that open a quote/comment may swallow following text: only termination, prefix and no-crash are asserted for '
+         'them. K35/K35b (reader makes no progress after certain lexer errors) are KNOWN-FINDINGs.'),
 }
 
 NOT_APPLICABLE_REASON_UNBUILT = ('check designed in DESIGN.md but not built/validated yet in this session; '
